@@ -166,7 +166,7 @@ func main() {
 	workers := flag.Int("j", 12, "parallel worker processes")
 	lag := flag.Bool("lag", true, "let announcements lag")
 	games := flag.Bool("games", true, "staking/binding outputs")
-	unsup := flag.Bool("unsupported", false, "non-witness outputs")
+	unsup := flag.Bool("unsupported", true, "non-witness outputs")
 	first := flag.Int("first", 0, "index of the first history (replay: -first k -n 1)")
 	worker := flag.Bool("worker", false, "internal: run sequentially and print to stdout")
 	flag.Parse()
